@@ -164,7 +164,7 @@ func c07Check(env *h.Env, c *c07Case) error {
 	}()
 	go func() {
 		defer wg.Done()
-		h.RunRefSender(sr, pair.S, stats, data, c.Script, atFin)
+		h.RunRefSender(sr, pair.S, stats, func(id uint32, st *types.Stat) []byte { return data[st.Path] }, c.Script, atFin)
 	}()
 	done := make(chan struct{})
 	go func() { wg.Wait(); close(done) }()
